@@ -250,6 +250,12 @@ class FiniteDifference(ApproximationScheme):
             # Turn off finite difference.
             system._set_finite_difference_mode(False)
 
+            # an exception raised while a point was being run leaves that point's perturbation
+            # behind, so put back what we found.
+            system._inputs.set_val(self._starting_ins)
+            system._outputs.set_val(self._starting_outs)
+            system._residuals.set_val(self._starting_resids)
+
         # reclaim some memory
         self._starting_ins = None
         self._starting_outs = None
